@@ -13,6 +13,12 @@ fn kinds() -> [&'static str; 5] {
 
 /// synthetic configuration: class i serves orders [lo_i, hi_i]; `kinds[i]` is its slot-count kind
 fn config_json(ks: &[&str], with_gfp: bool) -> String {
+    config_json_ids(ks, with_gfp, "pos")
+}
+
+/// `ids`: "pos" = class ids equal list positions (as in the shipped files); "rev" = same classes, list reversed
+/// (ids no longer equal positions); "sparse" = ids 0, 2, 5, 7
+fn config_json_ids(ks: &[&str], with_gfp: bool, ids: &str) -> String {
     let n = ks.len();
     let mut classes = vec![];
     // order ranges: split 0..=10 into n consecutive ranges (the last class also takes the rest)
@@ -23,20 +29,28 @@ fn config_json(ks: &[&str], with_gfp: bool) -> String {
         _ => vec![(0, 0), (1, 3), (4, 8), (9, 9)], // order 10 matches nothing -> falls back to the first class
     };
     for (i, k) in ks.iter().enumerate() {
-        let mut c = json!({"id": i, "count": k, "order": [bounds[i].0, bounds[i].1]});
+        let id = if ids == "sparse" { [0usize, 2, 5, 7][i] } else { i };
+        let mut c = json!({"id": id, "count": k, "order": [bounds[i].0, bounds[i].1]});
         if with_gfp && i == 0 && n > 1 {
             c["gfp"] = json!({"off": "MOVABLE"});
         }
         classes.push(c);
     }
-    json!({"classes": classes, "default": n - 1, "perfect": [64, 2047], "good": [2048, 4095]}).to_string()
+    let default = if ids == "sparse" { [0usize, 2, 5, 7][n - 1] } else { n - 1 };
+    if ids == "rev" {
+        classes.reverse();
+    }
+    json!({"classes": classes, "default": default, "perfect": [64, 2047], "good": [2048, 4095]}).to_string()
 }
 
-fn sweep(name: &str, cfg_s: &str, quick: bool, out: &mut Vec<String>) {
+/// `lenient`: a configuration the harness does not accept is outside the property (skipped, not reported)
+fn sweep(name: &str, cfg_s: &str, quick: bool, lenient: bool, out: &mut Vec<String>) {
     let cfg: ClassingConfig = match facet_json::from_str(cfg_s) {
         Ok(c) => c,
         Err(e) => {
-            out.push(json!({"ev":"clscfg","name":name,"err":format!("{e}")}).to_string());
+            if !lenient {
+                out.push(json!({"ev":"clscfg","name":name,"err":format!("{e}")}).to_string());
+            }
             return;
         }
     };
@@ -45,7 +59,9 @@ fn sweep(name: &str, cfg_s: &str, quick: bool, out: &mut Vec<String>) {
         let classing = match catch_unwind(AssertUnwindSafe(|| cfg.classing(cores))) {
             Ok(c) => c,
             Err(_) => {
-                out.push(json!({"ev":"cls","name":name,"cores":cores,"classes":[],"reqs":[],"panic":"classing"}).to_string());
+                if !lenient {
+                    out.push(json!({"ev":"cls","name":name,"cores":cores,"classes":[],"reqs":[],"panic":"classing"}).to_string());
+                }
                 continue;
             }
         };
@@ -127,6 +143,11 @@ fn main() {
                         let mut ks = vec!["cores"; n];
                         ks[pos] = k;
                         cfgs.push((format!("syn:{n}:{pos}:{k}"), config_json(&ks, n % 2 == 0)));
+                        if n >= 2 {
+                            // the same classes with ids that are not their list positions
+                            cfgs.push((format!("lenient:rev:{n}:{pos}:{k}"), config_json_ids(&ks, n % 2 == 0, "rev")));
+                            cfgs.push((format!("lenient:sparse:{n}:{pos}:{k}"), config_json_ids(&ks, n % 2 == 0, "sparse")));
+                        }
                     }
                 }
                 // all classes of the same kind
@@ -146,7 +167,7 @@ fn main() {
             }
             for (i, (name, c)) in cfgs.iter().enumerate() {
                 if i % parts == part {
-                    sweep(name, c, quick, &mut out);
+                    sweep(name, c, quick, name.starts_with("lenient:"), &mut out);
                 }
             }
         }
